@@ -126,6 +126,10 @@ fn main() {
         std::process::exit(1);
     }
 
+    if tier == Tier::Thorough {
+        // engine.rs cross-checks its state counts against stateright on the smaller phases.
+        unsafe { std::env::set_var("BWMC_CROSSCHECK", "1") };
+    }
     let started = Instant::now();
     let report: Report = (prop.run)(&cfg, &sink);
     let wall_s = started.elapsed().as_secs_f64();
